@@ -182,7 +182,25 @@ def prune_dims(inp):
     inp["locs"] = [x for x in inp["locs"] if fnum(x[0]) in ss]
 
 
-def make_dataset(rng, n_inputs=None, fmt=None, clim=False, prob=False, ens=False, pit=False, others=(),
+def make_dataset(rng, *args, **kw):
+    """make_dataset_once, repeated until the inputs have at least one common time, lead time and location
+    (sparse text files may lose coordinates)."""
+    for _ in range(50):
+        ds = make_dataset_once(rng, *args, **kw)
+        allin = ds["inputs"] + ([ds["clim"]] if ds.get("clim") else [])
+        t = set(allin[0]["times"])
+        l = set(allin[0]["leadtimes"])
+        s = set(x[0] for x in allin[0]["locs"])
+        for i in allin[1:]:
+            t &= set(i["times"])
+            l &= set(i["leadtimes"])
+            s &= set(x[0] for x in i["locs"])
+        if t and l and s:
+            return ds
+    raise RuntimeError("could not generate a dataset with common coordinates")
+
+
+def make_dataset_once(rng, n_inputs=None, fmt=None, clim=False, prob=False, ens=False, pit=False, others=(),
                  miss=None, sparse=None, max_t=5, max_l=4, max_s=4, some_without_obs=False,
                  same_dims=False, integerish=False, vrange=(-10, 30), single=None, hours=None,
                  leadtime_pool=None, thresholds=None, quantiles=None, members=None):
